@@ -656,7 +656,6 @@ class Process(StateMachine, persistence.Savable, metaclass=ProcessStateMachineMe
         self._setup_event_hooks()
 
         # Runtime variables, set initial states
-        self._future = persistence.SavableFuture()
         self._event_helper = EventHelper(ProcessListener)
         self._logger = None
         self._communicator = None
@@ -666,6 +665,8 @@ class Process(StateMachine, persistence.Savable, metaclass=ProcessStateMachineMe
         else:
             self._loop = asyncio.get_event_loop()
 
+        # The futures of a process belong to its own loop, which need not be the current event loop of the thread
+        self._future = persistence.SavableFuture(loop=self._loop)
         self._state: process_states.State = self.recreate_state(saved_state['_state'])
 
         if 'communicator' in load_context:
@@ -844,7 +845,7 @@ class Process(StateMachine, persistence.Savable, metaclass=ProcessStateMachineMe
         self._pausing = None
 
         # Create a future to represent the duration of the paused state
-        self._paused = persistence.SavableFuture()
+        self._paused = persistence.SavableFuture(loop=self._loop)
 
         # Save the current status and potentially overwrite it with the passed message
         self._pre_paused_status = self.status
